@@ -25,4 +25,6 @@ def run(prog, rep, tier):
     apply(rep, "Q1", "operators and constant domains carry no mutable members (nothing is remembered from one symbol/file to the next)",
           ([i for i in q[0] if i[0].startswith("Q1i:")], [f for f in q[1] if f["key"].startswith("Q1i:")]), 2)
     apply(rep, "Z1e", "per-machine ELF constant names round-trip", r_elf.z1elf(prog), 7)
+    import r_core as _rc8
+    apply(rep, "P8", "a copied symbol keeps its position and its index in the table (value_symbol::clone interpreted with marker fields)", _rc8.p8(prog), 10)
     maybe_mutants("C18", rep, tier)
